@@ -757,6 +757,52 @@ def kf_class(entries, uris):
     return None
 
 
+def py_unescape(raw: str) -> bytes:
+    """bytes denoted by the text between the quotes of a profile literal (documented escapes)"""
+    out, i = bytearray(), 0
+    simple = {"n": 10, "r": 13, "t": 9, "\\": 0x5C, '"': 0x22, "'": 0x27}
+    while i < len(raw):
+        c = raw[i]
+        if c == "\\" and i + 1 < len(raw):
+            d = raw[i + 1]
+            if d == "x" and i + 3 < len(raw) + 0 and len(raw) >= i + 4:
+                out.append(int(raw[i + 2:i + 4], 16))
+                i += 4
+            elif d == "u" and len(raw) >= i + 6:
+                out.append(int(raw[i + 4:i + 6], 16))
+                i += 6
+            elif d in simple:
+                out.append(simple[d])
+                i += 2
+            else:
+                i += 2
+        else:
+            out.append(ord(c) & 0xFF)
+            i += 1
+    return bytes(out)
+
+
+def kf_violated(line, kf, entries, uris) -> bool:
+    """does the implementation really break the property on this input of a recorded class?"""
+    r = run_pipeline(line.partition(" ")[2], True)
+    if "exc" in r:
+        return True
+    if "text" not in r or not r.get("reparse"):
+        return True
+    if kf == KF_BACKSLASH:
+        d = r["dict"]
+        for idx, kind, val in entries:
+            if kind == "s" and b"\\" in val and idx in PLAIN and not (idx in GUARDED and not val):
+                got = d.get(PLAIN[idx], [None])[0]
+                if got is None or py_unescape(got) != val:
+                    return True
+        if any(e[0] == 8 for e in entries) and any(u is not None and b"\\" in u for u in uris):
+            got = d.get("http-get.uri", [None])[0]
+            if got is None or py_unescape(got) != b", ".join(u for u in uris if u is not None):
+                return True
+    return False
+
+
 def _parsed(line):
     uris, entries = dec_payload(line.split(" ")[1:])
     return uris, dict_semantics(entries)
@@ -774,7 +820,7 @@ def oracle(stream, line, out):
             return out == "wf=T total=T valid=T faithful=T"
         kf = kf_class(ded, uris)
         if kf is not None and kf in _KNOWN_IDS:
-            return False
+            return not kf_violated(line, kf, ded, uris)
         return None
     return None
 
@@ -787,7 +833,7 @@ def known(stream, line, known_list):
     if py_wf(ded, uris):
         return None
     kf = kf_class(ded, uris)
-    return kf if kf in ids else None
+    return kf if (kf in ids and kf_violated(line, kf, ded, uris)) else None
 
 
 def nontrivial(stream, line, out):
